@@ -89,7 +89,12 @@ Ltac abs_entries :=
 Ltac shape_destruct H :=
   first [ apply has_shape_2 in H; destruct H as (?a & ?b & ?c & ?d & ->)
         | apply has_shape_3 in H; destruct H as (?a & ?b & ?c & ?d & ?e & ?f & ?g & ?h & ?i & ->) ].
-Ltac mat_eq := repeat (f_equal; try ring).
+Ltac mat_eq :=
+  repeat match goal with
+  | |- cons _ _ = cons _ _ => apply f_equal2
+  | |- nil = nil => reflexivity
+  | |- Ok _ = Ok _ => apply f_equal
+  end; try ring.
 
 (* ================= channel table ================= *)
 
@@ -121,12 +126,33 @@ Proof.
     destruct (nm_hyperfine_nonzero nm); reflexivity.
 Qed.
 
+Definition pulser_deph (ising : bool) (dim : nat) (c : A) : list (@mat A) :=
+  let s := if ising then 0%nat else 1%nat in [unit_mat K dim s s (two K * c)].
+
+Lemma pulser_ops_deph : forall (nm : @noise_model A) ising dim,
+  pulser_ops K "dephasing" nm ising dim = pulser_deph ising dim (nm_c_deph nm).
+Proof. reflexivity. Qed.
+
+Lemma dephasing_shift_c : forall c ising dim, dim_ok dim ->
+  [dephasing_emu dim c] =
+  map (fun P => msub K dim (mscale K dim c (mid K dim)) (to_emu_basis K ising dim P)) (pulser_deph ising dim c).
+Proof.
+  intros c [|] dim [-> | ->]; norm; mat_eq.
+Qed.
+
 Lemma dephasing_shift : forall (nm : @noise_model A) ising dim, dim_ok dim ->
   [dephasing_emu dim (nm_c_deph nm)] =
   map (fun P => msub K dim (mscale K dim (nm_c_deph nm) (mid K dim)) (to_emu_basis K ising dim P))
       (pulser_ops K "dephasing" nm ising dim).
+Proof. intros; rewrite pulser_ops_deph; now apply dephasing_shift_c. Qed.
+
+Lemma dephasing_same_dissipator_c : forall c ising dim rho, dim_ok dim ->
+  rconj K c = c -> has_shape dim rho = true ->
+  dissip2_sum K dim [dephasing_emu dim c] rho =
+  dissip2_sum K dim (map (to_emu_basis K ising dim) (pulser_deph ising dim c)) rho.
 Proof.
-  intros nm [|] dim [-> | ->]; norm; mat_eq.
+  intros c ising dim rho [-> | ->] Hc Hs; shape_destruct Hs;
+  destruct ising; norm; conj_norm; rewrite ?Hc; mat_eq.
 Qed.
 
 (* same Lindblad dissipator (dims 2 and 3, every rho), c real *)
@@ -134,10 +160,7 @@ Lemma dephasing_same_dissipator : forall (nm : @noise_model A) ising dim rho, di
   rconj K (nm_c_deph nm) = nm_c_deph nm -> has_shape dim rho = true ->
   dissip2_sum K dim [dephasing_emu dim (nm_c_deph nm)] rho =
   dissip2_sum K dim (map (to_emu_basis K ising dim) (pulser_ops K "dephasing" nm ising dim)) rho.
-Proof.
-  intros nm ising dim rho [-> | ->] Hc Hs; shape_destruct Hs;
-  destruct ising; norm; conj_norm; rewrite ?Hc; conj_norm; mat_eq.
-Qed.
+Proof. intros; rewrite pulser_ops_deph; now apply dephasing_same_dissipator_c. Qed.
 
 (* depolarizing: three operators c*{sx, sy, sz} on the first two levels *)
 Definition depol_emu (dim : nat) (c : A) : list (@mat A) :=
